@@ -429,6 +429,13 @@ func cmdCheck(args []string) int {
 		b, _ := json.MarshalIndent(ev, "", " ")
 		os.WriteFile(*evidence, b, 0o644)
 	}
+	if os.Getenv("GOVC_SLOW") != "" {
+		for _, o := range obls {
+			if o.Result != nil && o.Result.Ms > 2500 {
+				fmt.Printf("  slow %6d ms %-22s %s\n", o.Result.Ms, o.Result.Backend, o.Name)
+			}
+		}
+	}
 	fmt.Printf("property=%s tier=%s functions=%d obligations=%d discharged=%d restricted=%d failed=%d covers=%d/%d bounded=%d solver_ms=%d wall_s=%.1f\n",
 		*prop, *tier, len(funcsUnder), nObl, discharged, restricted, len(violations), coverOK, covers, len(boundedSamples), solverMs, time.Since(t0).Seconds())
 	return exit
